@@ -2,104 +2,17 @@
 
 package inprocgrpc
 
-// Shared fixture of the in-process harnesses: a registry of small services whose
-// handlers have the shape protoc-gen-go-grpc generates, with behaviour supplied by
-// the harness through hooks.
-
 import (
-	"context"
-
-	"google.golang.org/grpc"
-
-	"github.com/fullstorydev/grpchan/grpchantesting"
+	"github.com/fullstorydev/grpchan/internal/zzfix"
 )
 
-type verifMsg = grpchantesting.Message
-
-type verifServer interface {
-	verifMark()
-}
-
-type verifSrv struct {
-	name  string
-	hooks *verifHooks
-}
-
-func (*verifSrv) verifMark() {}
-
-// verifHooks is the handler behaviour of one harness run.
-type verifHooks struct {
-	// ran lists "<service>/<method>" for every handler invocation
-	ran    []string
-	unary  func(tag string, ctx context.Context, req *verifMsg) (*verifMsg, error)
-	stream func(tag string, ss grpc.ServerStream) error
-}
-
-func (h *verifHooks) runUnary(s *verifSrv, mtd string, ctx context.Context, req *verifMsg) (*verifMsg, error) {
-	tag := s.name + "/" + mtd
-	h.ran = append(h.ran, tag)
-	if h.unary != nil {
-		return h.unary(tag, ctx, req)
-	}
-	return &verifMsg{}, nil
-}
-
-func (h *verifHooks) runStream(s *verifSrv, mtd string, ss grpc.ServerStream) error {
-	tag := s.name + "/" + mtd
-	h.ran = append(h.ran, tag)
-	if h.stream != nil {
-		return h.stream(tag, ss)
-	}
-	return nil
-}
-
-func verifUnaryHandler(mtd string) func(srv interface{}, ctx context.Context, dec func(interface{}) error, interceptor grpc.UnaryServerInterceptor) (interface{}, error) {
-	return func(srv interface{}, ctx context.Context, dec func(interface{}) error, interceptor grpc.UnaryServerInterceptor) (interface{}, error) {
-		in := new(verifMsg)
-		if err := dec(in); err != nil {
-			return nil, err
-		}
-		s := srv.(*verifSrv)
-		if interceptor == nil {
-			return s.hooks.runUnary(s, mtd, ctx, in)
-		}
-		info := &grpc.UnaryServerInfo{Server: srv, FullMethod: "/" + s.name + "/" + mtd}
-		handler := func(ctx context.Context, req interface{}) (interface{}, error) {
-			return s.hooks.runUnary(s, mtd, ctx, req.(*verifMsg))
-		}
-		return interceptor(ctx, in, info, handler)
-	}
-}
-
-func verifStreamHandler(mtd string) grpc.StreamHandler {
-	return func(srv interface{}, ss grpc.ServerStream) error {
-		s := srv.(*verifSrv)
-		return s.hooks.runStream(s, mtd, ss)
-	}
-}
-
-// verifDesc describes a service with one unary method "U" and three streaming
-// methods: "S" (bidi), "C" (client streaming), "R" (server streaming).
-func verifDesc(name string) *grpc.ServiceDesc {
-	return &grpc.ServiceDesc{
-		ServiceName: name,
-		HandlerType: (*verifServer)(nil),
-		Methods: []grpc.MethodDesc{
-			{MethodName: "U", Handler: verifUnaryHandler("U")},
-		},
-		Streams: []grpc.StreamDesc{
-			{StreamName: "S", Handler: verifStreamHandler("S"), ServerStreams: true, ClientStreams: true},
-			{StreamName: "C", Handler: verifStreamHandler("C"), ClientStreams: true},
-			{StreamName: "R", Handler: verifStreamHandler("R"), ServerStreams: true},
-		},
-		Metadata: name + ".proto",
-	}
-}
+type verifMsg = zzfix.Msg
+type verifHooks = zzfix.Hooks
 
 // verifChannel returns an in-process channel with services "a" and "b".
 func verifChannel(h *verifHooks) *Channel {
 	ch := &Channel{}
-	ch.RegisterService(verifDesc("a"), &verifSrv{name: "a", hooks: h})
-	ch.RegisterService(verifDesc("b"), &verifSrv{name: "b", hooks: h})
+	ch.RegisterService(zzfix.Desc("a"), &zzfix.Srv{Name: "a", Hooks: h})
+	ch.RegisterService(zzfix.Desc("b"), &zzfix.Srv{Name: "b", Hooks: h})
 	return ch
 }
